@@ -22,6 +22,7 @@ class Builder(object):
     def __init__(self, rng, wild, stats):
         self.r, self.wild, self.stats = rng, wild, stats
         self.log, self.hits = [], set()
+        self.shuffled = False        # some SET OF got its members in another order than the plain twin
 
     def say(self, s):
         if len(self.log) < 200:
@@ -135,10 +136,11 @@ class Builder(object):
             obj = obj.clone(cloneValueFlag=True)
         return obj, vb
 
-    def build_rec(self, T, v, spec, path):
+    def build_rec(self, T, v, spec, path, obj=None):
         r = self.r
         b = base_desc(T)
-        obj = spec.clone()
+        if obj is None:
+            obj = spec.clone()
         order = list(range(len(b[1])))
         r.shuffle(order)
         vb = [None] * len(b[1])
@@ -175,6 +177,16 @@ class Builder(object):
         self.rec_reads(obj, b, assigned, v, path)
         return obj, ('rec', vb)
 
+    def list_reads(self, obj, path, dense):
+        r = self.r
+        for _ in range(r.choice([0, 0, 1])):
+            if dense and len(obj) and r.random() < 0.5:
+                i = r.randrange(len(obj))
+                self.say('%s: read member %d' % (path, i))
+                self.quiet(lambda: (obj[i], obj.getComponentByPosition(i, instantiate=False), obj[0:i]))
+            else:
+                self.common_reads(obj, path)
+
     def build_list(self, T, v, spec, path):
         r = self.r
         b = base_desc(T)
@@ -182,31 +194,51 @@ class Builder(object):
         items = list(v[1])
         if b[0] == 'setof' and len(items) > 1:
             r.shuffle(items)
+            self.shuffled = True
             self.stats['SET OF members permuted'] += 1
             self.say('%s: members added in a shuffled order' % path)
-        vb = []
+        n = len(items)
+        vb = [None] * n
         if not items:
             obj.clear()
-        for j, x in enumerate(items):
-            sub, subv = self.build(b[1], x, spec.componentType, '%s[%d]' % (path, j))
+        # the first m members are appended one after the other; the remaining positions are assigned in a
+        # random order (every position is filled in the end; in between the object has holes)
+        m = n if (n < 2 or r.random() < 0.5) else r.randrange(0, n - 1)
+        elem_kind = base_desc(b[1])[0]
+        for j in range(m):
+            sub, vb[j] = self.build(b[1], items[j], spec.componentType, '%s[%d]' % (path, j))
             how = r.choice(['append', 'extend', 'pos', 'item'])
             self.stats['add by ' + how] += 1
             if how == 'append': obj.append(sub)
             elif how == 'extend': obj.extend([sub])
             elif how == 'pos': obj.setComponentByPosition(len(obj), sub)
             else: obj[len(obj)] = sub
-            vb.append(subv)
-            for _ in range(r.choice([0, 0, 1])):
-                if r.random() < 0.5:
-                    i = r.randrange(len(obj))
-                    self.say('%s: read member %d' % (path, i))
-                    self.quiet(lambda: (obj[i], obj.getComponentByPosition(i, instantiate=False), obj[0:i]))
-                else:
-                    self.common_reads(obj, path)
-            if self.wild and b[1][0] not in ('any',) and r.random() < 0.15:
+            self.list_reads(obj, path, True)
+            if self.wild and elem_kind != 'any' and r.random() < 0.15:
                 self.say('%s: read at the end, s[len(s)] (class F18d)' % path)
                 self.hits.add('F18d')
                 self.quiet(lambda: obj[len(obj)])
+        rest = list(range(m, n))
+        r.shuffle(rest)
+        if rest:
+            self.stats['lists with positions assigned out of order'] += 1
+            self.say('%s: positions %s assigned in this order' % (path, rest))
+        for j in rest:
+            epath = '%s[%d]' % (path, j)
+            if elem_kind in ('seq', 'set') and b[1][0] in ('seq', 'set') and r.random() < 0.5:
+                # the element is instantiated by reading the position and built in place: s[j]['f0'] = ...
+                self.stats['members built in place through s[i][name] = ...'] += 1
+                self.say('%s: instantiated by reading s[%d], then filled in place' % (epath, j))
+                elem = obj[j] if r.random() < 0.5 else obj.getComponentByPosition(j)
+                _, vb[j] = self.build_rec(b[1], items[j], spec.componentType, epath, obj=elem)
+            else:
+                sub, vb[j] = self.build(b[1], items[j], spec.componentType, epath)
+                if r.random() < 0.5:
+                    self.say('%s: s[%d] = ...' % (path, j)); obj[j] = sub
+                else:
+                    self.say('%s: setComponentByPosition(%d, ...)' % (path, j)); obj.setComponentByPosition(j, sub)
+                self.stats['positional assignment'] += 1
+            self.list_reads(obj, path, False)
         return obj, ('list', vb)
 
     def build_choice(self, T, v, spec, path):
@@ -292,6 +324,25 @@ def any_canonical(T, v, cdc):
     return True
 
 
+def iteration_ok(obj):
+    """every SEQUENCE OF / SET OF inside iterates its members by ascending position"""
+    if isinstance(obj, univ.SequenceOfAndSetOfBase):
+        cv = obj._componentValues
+        if cv is univ.noValue:
+            return True
+        want = [cv[i] for i in range(len(obj)) if i in cv]
+        got = list(iter(obj))
+        if len(got) != len(want) or any(x is not y for x, y in zip(got, want)):
+            return False
+        return all(iteration_ok(c) for c in want)
+    if isinstance(obj, univ.SequenceAndSetBase):
+        cv = obj._componentValues
+        if cv is univ.noValue:
+            return True
+        return all(iteration_ok(c) for c in cv if c is not univ.noValue)
+    return True
+
+
 def jsonable(x):
     return json.loads(json.dumps(x, default=lambda b: b.hex() if isinstance(b, (bytes, bytearray)) else repr(b)))
 
@@ -317,6 +368,16 @@ def check_case(ctx, c, wild, exprs, meta):
         ctx.prop_fail('the construction history did not reach the intended abstract value', dict(m, got=jsonable(gotB), want=jsonable(c.want)), finding=fid)
         ctx.stats['prop_fail:' + (fid or 'unexplained')] += 1
         return
+    if not iteration_ok(objB) or not iteration_ok(c.obj):
+        ctx.prop_fail('a SEQUENCE OF / SET OF does not iterate its members by ascending position', m, finding=fid)
+        ctx.stats['prop_fail:' + (fid or 'unexplained')] += 1
+    if not bld.shuffled:
+        ba, bb = I.run_encode('BER', c.obj), I.run_encode('BER', objB)
+        ctx.stats['BER comparisons'] += 1
+        if (ba[0], ba[1]) != (bb[0], bb[1]):
+            ctx.prop_fail('BER (definite) bytes differ between two objects with the same abstract value and member order',
+                          dict(m, bytes_plain=jsonable(ba[1]), bytes_history=jsonable(bb[1])), finding=fid)
+            ctx.stats['prop_fail:' + (fid or 'unexplained')] += 1
     for cdc in ('DER', 'CER'):
         ea = I.run_encode(cdc, c.obj)
         eb = I.run_encode(cdc, objB)
@@ -372,7 +433,7 @@ def targeted():
 def run(ctx):
     ctx.rule = ('random (type, value) of the universe (depth<=3) plus targeted SET/SET OF/DEFAULT cases; per case one plain object and one '
                 'built by a random construction history (random assignment order by name/position/tag, SET OF members shuffled, DEFAULT '
-                'explicit or left out, parts decoded from indefinite/chunked BER or CER/DER forms, clone(cloneValueFlag=True), interleaved '
+                'explicit or left out, SEQUENCE OF/SET OF positions assigned in a random order by s[i]= / setComponentByPosition after an appended prefix, record members built in place through s[i][name]=, parts decoded from indefinite/chunked BER or CER/DER forms, clone(cloneValueFlag=True), interleaved '
                 'encode/print/iterate/len/compare/getComponentBy*(instantiate=False and True) reads); every 5th history may also enter the '
                 'classes of the open findings F18a/F18d/F18j; compared: DER and CER of both, a second encode, re-encoding of the decoded DER/CER; '
                 'non-trivial = constructed type with at least 2 recorded history steps')
